@@ -87,6 +87,9 @@ func checkStep(rep *kit.Report, t *kit.Trans, sc am.Schema, h handlerCfg, onChan
 		if tx.MachTimeAtEnd != nil && !slices.Equal(tx.After, tx.MachTimeAtEnd) {
 			f("T: tx#%d TimeAfter=%v but Time(nil) at TransitionEnd=%v", k, tx.After, tx.MachTimeAtEnd)
 		}
+		if tx.FinalsAfter != nil && tx.FinalsMach != nil && !slices.Equal(tx.FinalsAfter, tx.FinalsMach) {
+			f("T: tx#%d TimeAfter=%v during the final phase but Time(nil) is %v", k, tx.FinalsAfter, tx.FinalsMach)
+		}
 		prev = tx.After
 		for i, s := range index {
 			if i >= len(tx.Before) || i >= len(tx.After) {
